@@ -606,3 +606,161 @@ def c20_h(ctx):
               'rounds * int(n_sim_round / batch_size)',
               'the batch objective is not rounds * (n_sim_round / batch_size)', fn=so,
               node=st2[0] if st2 else so.node)
+
+
+@obligation('C20-i', 'T9 T8', 'the whitening matrix acts on observed vectors, simulated rows and '
+            'covariances under one convention (W v, X W^T, W C W^T)', floor=5,
+            necessary='if the observed vector is mapped by W but the simulated rows by W^T the '
+                      'density is evaluated in a coordinate system other than the one the sample '
+                      'moments are in (any non-symmetric W)')
+def c20_i(ctx):
+    ctx.fact('numpy.matmul(W, v) maps a column vector by W; rows x_i of X are mapped by W through '
+             'matmul(X, transpose(W)); a covariance through matmul(matmul(W, C), transpose(W))')
+    WS = (('param', 'whitening'), ('name', 'whitening'))
+    WT = [pattern('np.transpose(whitening)'), pattern('whitening.T')]
+
+    class _W(object):
+        def __eq__(self, other):
+            return other in WS
+        __hash__ = None
+    W = _W()
+
+    def is_wt(t):
+        return any(match(t, p) is not None for p in WT)
+    mods = [m for m in ctx.repo.modules.values() if m.name.startswith('elfi.methods.bsl.')]
+    n_sites = 0
+    for m in mods:
+        for f in m.functions.values():
+            if 'whitening' not in f.all_params:
+                continue
+            ex = ctx.ex(f)
+            for n in own_nodes(f.node):
+                a = None
+                if isinstance(n, ast.Call) and match(ex.raw(n.func), pattern('np.matmul')) \
+                        is not None and len(n.args) == 2:
+                    a = [ex.raw(n.args[0]), ex.raw(n.args[1])]
+                elif isinstance(n, ast.Call) and match(ex.raw(n.func), pattern('np.dot')) \
+                        is not None and len(n.args) == 2:
+                    a = [ex.raw(n.args[0]), ex.raw(n.args[1])]
+                elif isinstance(n, ast.BinOp) and isinstance(n.op, ast.MatMult):
+                    a = [ex.raw(n.left), ex.raw(n.right)]
+                elif isinstance(n, ast.Call) and isinstance(n.func, ast.Attribute) and \
+                        n.func.attr == 'dot' and len(n.args) == 1:
+                    a = [ex.raw(n.func.value), ex.raw(n.args[0])]
+                if a is None:
+                    continue
+                if not (W == a[0] or W == a[1] or is_wt(a[0]) or is_wt(a[1])):
+                    continue
+                n_sites += 1
+                left_ok = W == a[0] and not (W == a[1] or is_wt(a[1]))      # W v / W C
+                right_ok = is_wt(a[1]) and not (W == a[0] or is_wt(a[0]))   # X W^T / (W C) W^T
+                ctx.check(left_ok or right_ok, f, 'whitening convention at a matrix product',
+                          'W on the left, or W^T on the right',
+                          'matrix product {} @ {} applies the whitening matrix under the '
+                          'transposed convention (W on the right untransposed, or W^T on the '
+                          'left): observed and simulated summaries end up in different '
+                          'coordinates'.format(show(a[0])[:40], show(a[1])[:40]), fn=f, node=n)
+    if n_sites < 4:
+        ctx.undecided('expected at least 4 whitening products in elfi.methods.bsl, found {}'
+                      .format(n_sites))
+
+
+def _case_values(ctx, h):
+    """{case string: value term stored into the result array under `type == case`}."""
+    ex = ctx.ex(h)
+    out = {}
+    for n in own_nodes(h.node):
+        if not isinstance(n, ast.If):
+            continue
+        t = ex.term(n.test)
+        if t[0] != 'cmp' or t[1] != '==':
+            continue
+        case = None
+        for side in (t[2], t[3]):
+            if side[0] == 'const' and isinstance(side[1], str):
+                case = side[1]
+        if case is None:
+            continue
+        stores = [s for s in n.body if isinstance(s, ast.Assign) and
+                  isinstance(s.targets[0], ast.Subscript)]
+        if len(stores) != 1:
+            continue
+        out[case] = (stores[0], ex.term(stores[0].value))
+    return out
+
+
+def _leaf_of(h):
+    """Classify array-element leaves of a transform helper: 'v' = element of the first parameter,
+    'a' / 'b' = lower / upper bound of the same row."""
+    p0, pb = h.params[0], h.params[1]
+
+    def leaf(t):
+        if t[0] != 'sub':
+            return None
+        base, idx = t[1], t[2]
+        if base == ('param', pb) and idx[0] == 'tuple' and len(idx[1]) == 2 and \
+                idx[1][0][0] == 'elem' and idx[1][1][0] == 'const':
+            return {0: 'a', 1: 'b'}.get(idx[1][1][1])
+        if idx[0] == 'elem' and ('param', p0) in set(subterms(base)) and \
+                ('param', pb) not in set(subterms(base)):
+            return 'v'
+        return None
+    return leaf
+
+
+@obligation('C20-j', 'T14', 'per bound type: back-transform inverts the transform, and the '
+            'log-Jacobian is log |d theta / d theta-tilde| of the back-transform', floor=8,
+            necessary='the acceptance probability uses exp(logJ(proposed) - logJ(current)); with a '
+                      'log-Jacobian that is not the derivative of the back-transform the chain '
+                      'targets a different density for that bound type')
+def c20_j(ctx):
+    from .. import ratfun as rf
+    rf.selfcheck()
+    ctx.fact('formulas are normalised to quotients of polynomials in u = exp(theta-tilde), a, b '
+             'over Q; equality is decided by coefficient comparison; d/dy = u d/du')
+    cls, P, R, F, B, J = roles(ctx)
+    cf, cb, cj = _case_values(ctx, F), _case_values(ctx, B), _case_values(ctx, J)
+    cases = sorted(set(cf) & set(cb) & set(cj))
+    if len(cases) < 4:
+        ctx.undecided('fewer than four common bound-type cases in the transform helpers: {}'
+                      .format(cases))
+    lf, lb, lj = _leaf_of(F), _leaf_of(B), _leaf_of(J)
+    x = rf.Rat.sym('v')
+    for k in cases:
+        (sf, tf), (sb, tb), (sj, tj) = cf[k], cb[k], cj[k]
+        try:
+            f_id = lf(tf) == 'v'
+            b_id = lb(tb) == 'v'
+            E = None if f_id else rf.exp_of(tf, lf, None)      # e^{y} as a function of x
+            Bk = None if b_id else rf.to_rat(tb, lb, 'v')      # x as a function of u = e^{y}
+            Jk = rf.exp_of(tj, lj, 'v')                        # e^{logJ} as a function of u
+        except rf.Unsupported as e:
+            ctx.undecided('bound type {}: formula outside the rational fragment ({})'.format(k, e))
+        # (1) inversion
+        if f_id or b_id:
+            ok = f_id and b_id
+        else:
+            ok = Bk.subst('u', E).same(x)
+        ctx.check(ok, B, 'back-transform inverts the transform (type {})'.format(k),
+                  'B(F(x)) = x as rational functions',
+                  'for bound type {} the back-transform {} applied to the transform {} is not the '
+                  'identity'.format(k, src(sb.value), src(sf.value)), fn=B, node=sb)
+        # (2) Jacobian
+        if b_id:
+            want = rf.Rat.const(1)
+        else:
+            want = rf.Rat.sym('u') * Bk.diff('u')
+        okj = Jk.same(want) or Jk.same(-want)
+        ctx.check(okj, J, 'log-Jacobian = log |dx/dy| of the back-transform (type {})'.format(k),
+                  'exp(logJ) = u * dB/du',
+                  'for bound type {} the log-Jacobian `{}` is not the log-derivative of the '
+                  'back-transform `{}` (exp(logJ) = {}, d theta/d theta-tilde = {})'.format(
+                      k, src(sj.value), src(sb.value), Jk, want), fn=J, node=sj)
+    # the case results are summed into one log-Jacobian
+    exj = ctx.ex(J)
+    rets = returns(J)
+    ok = bool(rets) and all(contains(exj.term(r.value), 'np.sum(_)') or
+                            contains(exj.term(r.value), '_.sum()') for r in rets)
+    ctx.check(ok, J, 'log-Jacobian of the vector = sum over parameters', 'np.sum(logJ)',
+              'the per-parameter log-Jacobians are not summed', fn=J, node=rets[0] if rets else
+              J.node)
